@@ -29,6 +29,11 @@ type typ struct {
 	eq     func(i, j int) bool
 	ne     func(i, j int) bool
 	direct func(i, j int) bool
+	// related pairs: b derived from a (may share storage); op 0 "=", 1 "<>", 2 OpEqual
+	nrel     int
+	relCanon [][2]string
+	relHow   []string
+	rel      func(k, op int, swap bool) bool
 }
 
 var types []*typ
@@ -123,6 +128,35 @@ func one(t *typ) {
 				}
 				if i == 0 && j == 1 && t.id%97 == 0 {
 					rep.Sample(map[string]any{"type": t.fo, "a": t.canon[i] + " via " + t.how[i], "b": t.canon[j] + " via " + t.how[j], "equal": want})
+				}
+			}
+		}
+		// related pairs: a value and a value derived from it (views of the same storage), both operand orders
+		for k := 0; k < t.nrel; k++ {
+			for _, swap := range []bool{false, true} {
+				want := t.relCanon[k][0] == t.relCanon[k][1]
+				in := fmt.Sprintf("type %s: a = %s, b = %s derived as %s (swapped=%v)", t.fo, t.relCanon[k][0], t.relCanon[k][1], t.relHow[k], swap)
+				for op, name := range []string{"=", "<>", "OpEqual"} {
+					w := want
+					if op == 1 {
+						w = !want
+					}
+					evals++
+					validated++
+					trans++
+					rep.H("kind:related-pairs", 1)
+					got, p, msg := try(func(i, j int) bool { return t.rel(k, op, swap) }, 0, 0)
+					if p {
+						rep.O("panic")
+						rep.V("C10:panic:related", fmt.Sprintf("%s panicked on %s: %s", name, in, msg), map[string]any{"type": t.fo, "pair": in, "op": name, "observed": "panic: " + msg})
+						continue
+					}
+					if got != w {
+						rep.O("wrong")
+						rep.V("C10:wrong:related-pair", fmt.Sprintf("%s gave %v on %s", name, got, in), map[string]any{"type": t.fo, "pair": in, "op": name, "expected": w, "observed": got})
+						continue
+					}
+					rep.O("agree")
 				}
 			}
 		}
